@@ -214,6 +214,19 @@ func (f *FakeInformers) Live() int {
 	return n
 }
 
+// LiveByKind returns the number of live handler registrations per kind.
+func (f *FakeInformers) LiveByKind() map[string]int {
+	f.mu.Lock()
+	defer f.mu.Unlock()
+	out := map[string]int{}
+	for _, r := range f.regs {
+		if !r.removed && !r.inf.stopped {
+			out[r.inf.gvk.Kind]++
+		}
+	}
+	return out
+}
+
 // Registrations returns the number of handler registrations ever made.
 func (f *FakeInformers) Registrations() int {
 	f.mu.Lock()
